@@ -310,6 +310,25 @@ EXTRA5 = {
     'C19': ' Round 7: operands given in different axes are refused (T19.mixed-axes).'}
 
 
+EXTRA6 = {
+    'C01': ' Round 8: the maps leave the points they are given unchanged (round_decimals interpreted) and round by the documented policy only (12 / 6 / none decimals towards cube / GRID / WORLD).',
+    'C03': ' Round 8: pyramid(min_size, dims) size recurrence; no derivation rounds coordinates on the way to a world position (rounding events).',
+    'C04': ' Round 8: narrow with a start counted from the end; resample with a spacing that keeps the number of samples; extent-preserving pyramid(spacing=); a single FlowField equals item 0 of its one-item batch (T10x.single-field).',
+    'C06': ' Round 8: a warp with a scalar outside value applied twice to the same image.',
+    'C07': ' Round 8: matrices re-read after one and two evaluations of the inverse; inv(t(x)), t(inv(x)) evaluated one after the other.',
+    'C08': ' Round 8: the inverted EulerRotation for all twelve orders.',
+    'C09': ' Round 8: T6x.linked-reset (reset through a linked transform leaves no stale buffered field).',
+    'C10': ' Round 8: positions read when a field is resampled on a grid of the other convention (shared T13.sample); T10x.single-field.',
+    'C12': ' Round 8: the Jacobian family on batches of different fields.',
+    'C13': ' Round 8: T4.dtype (compose_flows works in the fields\' precision; widening-cast events).',
+    'C14': ' Round 8: precomputed weight tables as kernel= (list, tuple, single tensor).',
+    'C15': ' Round 8: shape-metadata in-place methods on an argument that may have passed through identity-preserving conversions (E1).',
+    'C16': ' Round 8: T16.rand-sample (sampling weights per image are that image\'s mask; multinomial uninterpreted); T16.sample-mask (patch-wise mask is the indicator of mask > threshold for every dtype).',
+    'C17': ' Round 8: T17.bspline-bending (every route to the B-spline bending energy equals the energy of the spline\'s second derivatives); T67.point-vs-grid shared (inverse leg of inverse consistency).',
+    'C19': ' Round 8: reordering / repeating batch indices with a channel slice, boolean masks, narrow on the batch axis.',
+    'C20': ' Round 8: E8.scratch-reuse (a scratch operand reused across loop iterations is overwritten after autograd saved it).'}
+
+
 def main():
     sys.path.insert(0, HERE)
     props = [json.loads(l) for l in open(os.path.join(HERE, "properties.jsonl"))]
@@ -323,7 +342,7 @@ def main():
             na.append({"property_id": pid, "reason": reason})
             continue
         _, engine, technique, text, ref = ent
-        text = text + EXTRA.get(pid, "") + EXTRA2.get(pid, "") + EXTRA3.get(pid, "") + EXTRA4.get(pid, "") + EXTRA5.get(pid, "")
+        text = text + EXTRA.get(pid, "") + EXTRA2.get(pid, "") + EXTRA3.get(pid, "") + EXTRA4.get(pid, "") + EXTRA5.get(pid, "") + EXTRA6.get(pid, "")
         checks.append({
             "property_id": pid,
             "quick_cmd": f"./check {pid} --tier quick",
